@@ -176,14 +176,21 @@ def check(s):
         bm = s.builder(inline=set())
         h = t.handlers[0]
         htype = ast.unparse(h.type) if h.type is not None else ""
-        rets_body = [st for st in t.body if isinstance(st, ast.Return)]
-        rets_h = [st for st in h.body if isinstance(st, ast.Return)]
-        env = {"self": self_}
         ctx = Ctx(dc.module, dc, fn, ci)
-        okb = len(rets_body) == 1 and bm.ev(rets_body[0].value, env, ctx) == ("call", ("attr", ("attr", self_, "distribution"), "mode"), (), ())
+        pre = fn.body[:fn.body.index(t)]
+
+        def value_of(stmts):
+            """the value returned by `stmts` run after the statements that precede the try (locals and split calls resolved)"""
+            import copy
+            f2 = copy.copy(fn)
+            f2.body = list(pre) + list(stmts)
+            ps = live(bm.paths(f2, ctx))
+            return ps[0].ret if len(ps) == 1 else None
+
+        okb = value_of(t.body) == ("call", ("attr", ("attr", self_, "distribution"), "mode"), (), ())
         s.ob("C15.4", "AbstractTransformedDistribution.mode", okb, "the primary answer is the transformed law's own mode()", loc, key="mode-primary")
-        want = bm.ev(ast.parse("self.distribution.bijector.forward(self.distribution.distribution.mode())", mode="eval").body, env, ctx)
-        okh = htype == "NotImplementedError" and len(rets_h) == 1 and bm.ev(rets_h[0].value, env, ctx) == want
+        want = bm.ev(ast.parse("self.distribution.bijector.forward(self.distribution.distribution.mode())", mode="eval").body, {"self": self_}, ctx)
+        okh = htype == "NotImplementedError" and value_of(h.body) == want
         s.ob("C15.4", "AbstractTransformedDistribution.mode", okh, "on NotImplementedError the mode falls back to bijector.forward(base.mode())", loc, key="mode-fallback",
              detail=ast.unparse(h)[:200], necessary_for="the mode of a squashed law lies in the support [low, high]")
     # ---------------------------------------------------------------- C15.5 parameter wiring of the constructors and accessors
